@@ -1,0 +1,18 @@
+//go:build verif
+
+// Contracts checked by /verif/govc (comment-only; compiled only with -tags verif).
+package bits
+
+// Without options ToBinary returns the canonical decomposition of v on FieldBitLen() boolean wires
+// (bits are hinted, each is asserted boolean, the recomposition is asserted equal to v and the bits are
+// compared with p-1). ASSUMED for now: the body (toBinary) is not yet verified against this contract.
+//@ contract ToBinary
+//@   trusted
+//@   pure
+//@   ensures len(opts) == 0 ==> len(result) == fieldBits() && fresh(result) && allBool(result) && bsum(result) == ival(den(v))
+
+// Without options FromBinary returns sum_k digits[k]*2^k (as a field element).
+//@ contract FromBinary
+//@   trusted
+//@   pure
+//@   ensures len(opts) == 0 ==> stable(result) && den(result) == ofInt(bsum(digits))
